@@ -61,6 +61,7 @@ void h_verify_full(void)
 	int valid = r >= 1 && r < n && s >= 1 && s < n && t != 0 && g_finite && r == rr;
 	CHECK((ret == 1) == valid, "accept <=> r,s in [1,n-1], r+s != 0 mod n, point finite, r = (e + x1) mod n");
 	if (ret == 1) {
+		V_COVER("accept path 1");
 		CHECK(g_gen_calls == 1 && g_mul_calls == 1 && g_add_calls == 1, "one [s]G, one [t]P, one addition");
 		CHECK(val(g_s_arg) == s, "generator scalar is s");
 		CHECK(val(g_t_arg) == t, "public-key scalar is t = r + s mod n");
